@@ -217,7 +217,9 @@ def api_tables(src):
             "invalid": inv.group(1), "sets_call_data": sets_call_data,
             "load_consts": lconsts, "load_pp_fail": lppret.group(1), "load_pp_fail_derefs": bool(re.search(r"ppedStr\s*->", lpp.group(1))),
             "load_ok": lret.group(1), "load_parse_fail": lret.group(2), "load_invalid": linv.group(1),
-            "load_resets_call_data": bool(re.search(r"logger\s*->\s*call_data\s*=\s*(NULL|nullptr|0)\s*;", lc)),
+            "load_resets_call_data": bool(re.search(r"logger\s*->\s*call_data\s*=\s*(NULL|nullptr|0)\s*;", lc)
+                                          # or a scope object over the slot that clears it on entry (and restores the outer call's on exit)
+                                          or (re.search(r"\(\s*ref\.logger\s*->\s*call_data\s*\)\s*;", lc) and re.search(r"\bslot\s*=\s*(NULL|nullptr|0)\s*;", lc))),
             "status_invalid": int(stinv.group(1))}
 
 
